@@ -313,10 +313,13 @@ impl ZoneModel {
         out.sort();
         out
     }
-    /// The property's exemption: wall second l is the boundary second of a gap or fold.
+    /// The property's exemption: wall second l is *the single boundary second* of a gap or fold,
+    /// i.e. the wall reading T + offset_before of the transition instant itself (the first skipped
+    /// second of a gap: "strictly inside" excludes it; the second right after a repeated interval).
+    /// The other edge, T + offset_after, is judged exactly.
     pub fn exempt_local(&self, l: i64, max_abs_off: i64) -> Option<(i32, i32)> {
         for (t, p, a) in self.transitions_in(l - max_abs_off - 1, l + max_abs_off + 1) {
-            if p != a && (l == t + p as i64 || l == t + a as i64) {
+            if p != a && l == t + p as i64 {
                 return Some((p, a));
             }
         }
@@ -922,6 +925,6 @@ pub fn self_test() -> Result<(), String> {
     // fold at T=0 (7200 -> 3600): wall 3600..7199 occurs twice; gap at T=-100000 (3600 -> 7200): wall -96400..-92801 skipped
     chk(m.local_candidates(5000, &offs).len() == 2 && m.local_candidates(3600, &offs).len() == 2 && m.local_candidates(7200, &offs).len() == 1, "fold candidates")?;
     chk(m.local_candidates(-96_400, &offs).is_empty() && m.local_candidates(-96_401, &offs).len() == 1 && m.local_candidates(-92_801, &offs).is_empty() && m.local_candidates(-92_800, &offs).len() == 1, "gap candidates")?;
-    chk(m.exempt_local(-96_400, 90_000).is_some() && m.exempt_local(-92_800, 90_000).is_some() && m.exempt_local(3600, 90_000).is_some() && m.exempt_local(7200, 90_000).is_some() && m.exempt_local(5000, 90_000).is_none(), "exemption")?;
+    chk(m.exempt_local(-96_400, 90_000).is_some() && m.exempt_local(-92_800, 90_000).is_none() && m.exempt_local(3600, 90_000).is_none() && m.exempt_local(7200, 90_000).is_some() && m.exempt_local(5000, 90_000).is_none(), "exemption")?;
     Ok(())
 }
